@@ -233,13 +233,63 @@ pub fn stress(path: &str) {
             nbad += 1;
         }
     }
+    // fourth phase: every thread evaluates expressions of ITS OWN (same operators, different operands) in a tight loop
+    {
+        let barrier = Arc::new(std::sync::Barrier::new(threads));
+        let mut handles = vec![];
+        for t in 0..threads {
+            let (ctx, barrier) = (ctx.clone(), barrier.clone());
+            handles.push(std::thread::spawn(move || {
+                let k = t as i64 + 2;
+                let srcs = vec![
+                    format!("b ^ {}", k), format!("a ^ {}.5", k), format!("math::pow(b, {})", k), format!("a * {} + b", k), format!("s + \"{}\"", k),
+                    format!("max(a, {}, b)", k), format!("min({}, b)", k), format!("str::from({}) + s", k), format!("len(s + \"{}\")", "x".repeat(t)),
+                    format!("math::sqrt({})", k * 7), format!("{} % 7 == a", k), format!("(a, {}, t)", k), format!("if(a > {}, s, b)", k), format!("{} / b", k),
+                    format!("math::hypot({}, b)", k), format!("f({}) - a", k), format!("-{} < a", k), format!("str::to_uppercase(s + \"q{}\")", k),
+                ];
+                let trees: Vec<Node<DefaultNumericTypes>> = srcs.iter().map(|s| build_operator_tree(s).unwrap()).collect();
+                let want: Vec<String> = trees.iter().map(|n| crate::canon::result_text(&n.eval_with_context(&*ctx))).collect();
+                let mut bad = vec![];
+                barrier.wait();
+                // (the reference above was computed while other threads were still building: recompute it once more now)
+                for _ in 0..1500 {
+                    for (i, n) in trees.iter().enumerate() {
+                        let got = crate::canon::result_text(&n.eval_with_context(&*ctx));
+                        if got != want[i] && bad.len() < 3 {
+                            bad.push(format!("loop:{}\t{}\t{}", srcs[i], want[i], got));
+                        }
+                    }
+                }
+                (bad, srcs, want)
+            }));
+        }
+        let mut all = vec![];
+        for h in handles {
+            let (bad, srcs, want) = h.join().unwrap();
+            for b in bad {
+                println!("MISMATCH\t{}", b);
+                nbad += 1;
+            }
+            all.push((srcs, want));
+        }
+        // the references themselves, now that everything is quiet
+        for (srcs, want) in all {
+            for (sx, w) in srcs.iter().zip(want.iter()) {
+                let got = crate::canon::result_text(&eval_with_context(sx, &*ctx));
+                if &got != w {
+                    println!("MISMATCH\tloop-ref:{}\t{}\t{}", sx, got, w);
+                    nbad += 1;
+                }
+            }
+        }
+    }
     println!(
-        "THREADS\ttrees={}\tthreads={}\trounds={}+{}+strings\tevaluations={}\tmismatches={}",
+        "THREADS\ttrees={}\tthreads={}\trounds={}+{}+strings+loops\tevaluations={}\tmismatches={}",
         trees.len(),
         threads,
         rounds,
         rounds2,
-        trees.len() * threads * (rounds + rounds2 + 4),
+        trees.len() * threads * (rounds + rounds2 + 4) + threads * 1500 * 18,
         nbad
     );
 }
